@@ -35,7 +35,7 @@ fn battery(sim: &Sim<u32>, words: &[&str]) -> Vec<String> {
 }
 
 #[cfg(feature = "it_par")]
-fn par_iter_same(sim: &Sim<u32>) -> bool {
+fn par_iter_same_here(sim: &Sim<u32>) -> bool {
     use rayon::prelude::*;
     let mut a: Vec<(bool, u32, [i64; 5])> = Vec::new();
     let p = sim.proj();
@@ -52,9 +52,31 @@ fn par_iter_same(sim: &Sim<u32>) -> bool {
     pos2.sort();
     a2 == b && pos2 == (0..p.count).collect::<Vec<_>>()
 }
+/// in the global pool and inside pools of 1, 2, 3 and 5 workers (what par_iter visits must not depend on the pool);
+/// returns the size of the first pool in which it differs (0 = global pool)
+#[cfg(feature = "it_par")]
+fn par_iter_differs(sim: &Sim<u32>, pools: &[rayon::ThreadPool]) -> Option<usize> {
+    if !par_iter_same_here(sim) {
+        return Some(0);
+    }
+    for p in pools {
+        if !p.install(|| par_iter_same_here(sim)) {
+            return Some(p.current_num_threads());
+        }
+    }
+    None
+}
+#[cfg(feature = "it_par")]
+fn make_pools() -> Vec<rayon::ThreadPool> {
+    [1usize, 2, 3, 5].iter().filter_map(|n| rayon::ThreadPoolBuilder::new().num_threads(*n).build().ok()).collect()
+}
 #[cfg(not(feature = "it_par"))]
-fn par_iter_same(_sim: &Sim<u32>) -> bool {
-    true
+fn par_iter_differs(_sim: &Sim<u32>, _pools: &[()]) -> Option<usize> {
+    None
+}
+#[cfg(not(feature = "it_par"))]
+fn make_pools() -> Vec<()> {
+    Vec::new()
 }
 
 pub fn run(args: &[String]) -> i32 {
@@ -72,6 +94,7 @@ pub fn run(args: &[String]) -> i32 {
     let mut findings: Vec<serde_json::Value> = Vec::new();
     let mut nviol = 0u64;
     let mut max_nodes = 0usize;
+    let pools = make_pools();
     let mut check = |sim: &Sim<u32>, what: serde_json::Value| {
         arenas += 1;
         max_nodes = max_nodes.max(sim.arena.count());
@@ -92,10 +115,15 @@ pub fn run(args: &[String]) -> i32 {
                 }
             }
         }
-        if !par_iter_same(sim) {
+        if let Some(pool) = par_iter_differs(sim, &pools) {
             nviol += 1;
-            if findings.len() < 5 {
-                findings.push(json!({"prop": "C17", "kind": "par_iter", "detail": "par_iter() does not visit exactly the nodes of iter()", "case": {"arena": what}}));
+            if findings.len() < 6 {
+                // stated by C17 ("par_iter() visits exactly the nodes of iter()") and by C18 (readers "through par_iter observe exactly
+                // what a single thread observes"): reported under both
+                let d = format!("par_iter() does not visit exactly the nodes of iter() ({} slots, {})", sim.arena.count(),
+                    if pool == 0 { "global rayon pool".to_string() } else { format!("inside a rayon pool of {} workers", pool) });
+                findings.push(json!({"prop": "C17", "kind": "par_iter", "detail": d, "case": {"arena": what, "pool": pool}}));
+                findings.push(json!({"prop": "C18", "kind": "par_iter", "detail": d, "case": {"arena": what, "pool": pool}}));
             }
         }
     };
@@ -128,7 +156,7 @@ pub fn run(args: &[String]) -> i32 {
     let mut rng = StdRng::seed_from_u64(seed);
     for k in 0..random {
         let mut sim: Sim<u32> = Sim::new();
-        let n = 40 + (k as usize % 5) * 60;
+        let n = 37 + (k as usize % 7) * 41 + k as usize;      // 37 .. 300 slots, lengths of many residues
         let mut calls = Vec::new();
         for i in 0..(n * 3) {
             let cnt = sim.arena.count();
